@@ -8,6 +8,7 @@ import (
 	"fmt"
 	"os"
 	"sort"
+	"strings"
 	"testing"
 	"testing/synctest"
 	"time"
@@ -336,7 +337,7 @@ func vfPick(vs []*vfViol, profile string) (*vfViol, string) {
 		if v.Owner == profile {
 			return v, ""
 		}
-		if v.Also == profile {
+		if v.Also != "" && strings.Contains(","+v.Also+",", ","+profile+",") {
 			cp := *v
 			cp.Owner = profile
 			cp.Sig = profile + v.Sig[len(v.Owner):]
